@@ -13,12 +13,18 @@ package route
 //            body, every header that is not hop-level; the client's own
 //            address is shown as CLIENT)
 //   Return / Fail: project what came back on the client's connection
+//   Faulty:  the fake API misbehaves as the vector's `fault` says (closes the
+//            connection after reading the request - once or always -, refuses
+//            the connection, cuts its answer in the middle of the body, never
+//            answers); project EVERY request the fake API received, in order,
+//            and what came back on the client's connection
 // Header values are projected as element lists (comma-separated lists split),
 // Set-Cookie line by line - see the header of Proxy.tla for why.
 
 import (
 	"bufio"
 	"bytes"
+	"context"
 	"encoding/hex"
 	"errors"
 	"fmt"
@@ -31,6 +37,8 @@ import (
 	"sort"
 	"strings"
 	"sync"
+	"sync/atomic"
+	"syscall"
 	"testing"
 	"time"
 
@@ -47,6 +55,9 @@ import (
 const (
 	c37RedirectTarget = "/c37/redirect-target"
 	c37IOGuard        = 60 * time.Second // failure guard on socket reads, never waited for in a passing run
+	// fault "hang" only: the proxy's own client timeout (10 s in LnS) is shortened for that one exchange;
+	// the fake API does not answer until the proxy has given up, so the outcome does not depend on the value
+	c37HangTimeout = 250 * time.Millisecond
 )
 
 var c37Bodies = map[string][]byte{
@@ -92,6 +103,33 @@ type c37Upstream struct {
 	mu    sync.Mutex
 	calls []c37Seen
 	cur   c37Answer
+	fault string // "" / "none": healthy; else see Proxy.tla Faults
+}
+
+// dropConn closes the connection of the request without answering; with a non-nil
+// answer it first writes status line, headers and the first half of the announced body.
+func c37DropConn(w http.ResponseWriter, partial *c37Answer) {
+	hj, ok := w.(http.Hijacker)
+	if !ok {
+		return
+	}
+	c, _, err := hj.Hijack()
+	if err != nil {
+		return
+	}
+	if partial != nil {
+		var b bytes.Buffer
+		fmt.Fprintf(&b, "HTTP/1.1 %d %s\r\n", partial.status, http.StatusText(partial.status))
+		for name, vals := range partial.hdrs {
+			for _, v := range vals {
+				fmt.Fprintf(&b, "%s: %s\r\n", http.CanonicalHeaderKey(name), v)
+			}
+		}
+		fmt.Fprintf(&b, "Content-Length: %d\r\n\r\n", len(partial.body))
+		b.Write(partial.body[:len(partial.body)/2])
+		c.Write(b.Bytes())
+	}
+	c.Close()
 }
 
 func (u *c37Upstream) handle(w http.ResponseWriter, r *http.Request) {
@@ -99,7 +137,24 @@ func (u *c37Upstream) handle(w http.ResponseWriter, r *http.Request) {
 	u.mu.Lock()
 	u.calls = append(u.calls, c37Seen{method: r.Method, target: r.RequestURI, header: r.Header.Clone(), body: body})
 	ans := u.cur
+	fault, nth := u.fault, len(u.calls)
 	u.mu.Unlock()
+	switch fault {
+	case "close-once":
+		if nth == 1 {
+			c37DropConn(w, nil)
+			return
+		}
+	case "close-always":
+		c37DropConn(w, nil)
+		return
+	case "cut-body":
+		c37DropConn(w, &ans)
+		return
+	case "hang":
+		<-r.Context().Done() // until the proxy gives the call up
+		return
+	}
 	h := w.Header()
 	if r.URL.Path == c37RedirectTarget {
 		h.Set("X-C37-Resp", "r1")
@@ -124,10 +179,11 @@ func (u *c37Upstream) handle(w http.ResponseWriter, r *http.Request) {
 	w.Write(ans.body)
 }
 
-func (u *c37Upstream) arm(a c37Answer) {
+func (u *c37Upstream) arm(a c37Answer, fault string) {
 	u.mu.Lock()
 	u.calls = nil
 	u.cur = a
+	u.fault = fault
 	u.mu.Unlock()
 }
 
@@ -143,6 +199,8 @@ type c37Env struct {
 	srv    *httptest.Server
 	conn   net.Conn
 	rd     *bufio.Reader
+	tr     *http.Transport
+	refuse atomic.Bool // fault "refused": every dial of the proxy's transport is refused
 }
 
 func c37NewEnv(dir string) (*c37Env, error) {
@@ -165,6 +223,13 @@ func c37NewEnv(dir string) (*c37Env, error) {
 	if cfg.GetHoneycombAPI() != e.up.srv.URL {
 		return nil, fmt.Errorf("stale harness: HoneycombAPI is %q", cfg.GetHoneycombAPI())
 	}
+	dialer := &net.Dialer{}
+	e.tr = &http.Transport{DialContext: func(ctx context.Context, network, addr string) (net.Conn, error) {
+		if e.refuse.Load() {
+			return nil, &net.OpError{Op: "dial", Net: network, Err: os.NewSyscallError("connect", syscall.ECONNREFUSED)}
+		}
+		return dialer.DialContext(ctx, network, addr)
+	}}
 	mm := &metrics.MockMetrics{}
 	mm.Start()
 	hr := &health.MockHealthReporter{}
@@ -174,7 +239,7 @@ func c37NewEnv(dir string) (*c37Env, error) {
 		Config:        cfg,
 		Logger:        &logger.NullLogger{},
 		Health:        hr,
-		HTTPTransport: &http.Transport{},
+		HTTPTransport: e.tr,
 		Sharder:       &sharder.MockSharder{Self: &sharder.TestShard{Addr: "http://c37-self:8081"}},
 		Metrics:       mm,
 		Tracer:        noop.Tracer{},
@@ -204,6 +269,7 @@ type c37Result struct {
 	header http.Header
 	body   []byte
 	local  string // the client's own address (ip:port)
+	cut    bool   // the announced body did not arrive completely
 }
 
 // exchange writes the raw request and reads one response.
@@ -238,6 +304,7 @@ func (e *c37Env) exchange(method string, raw []byte) (*c37Result, error) {
 		e.conn = nil
 		if errors.Is(err, io.EOF) || errors.Is(err, io.ErrUnexpectedEOF) {
 			// the announced body did not arrive completely: also an observation
+			res.cut = true
 			res.body = append(res.body, []byte(" [c37: body cut short]")...)
 			return res, nil
 		}
@@ -277,6 +344,8 @@ func c37Elements(name string, lines []string) []any {
 type c37Harness struct {
 	dir       string
 	side      string
+	fault     string
+	nfault    int
 	env       *c37Env
 	req, rsp  map[string]any
 	res       *c37Result
@@ -299,6 +368,7 @@ func (h *c37Harness) Reset(init map[string]any) error {
 		return fmt.Errorf("initial state without req/rsp: %v", init)
 	}
 	h.side = verifkit.Str(init, "side")
+	h.fault = verifkit.Str(init, "fault")
 	h.res, h.calls, h.forwarded, h.returned = nil, nil, false, false
 	return nil
 }
@@ -351,17 +421,68 @@ func (h *c37Harness) exchange() error {
 		ans.status = 302
 		ans.hdrs["Location"] = []string{c37RedirectTarget}
 	}
-	h.env.up.arm(ans)
+	fault := ""
+	if h.side == "fault" {
+		fault = h.fault
+	}
 	method, raw, err := h.rawRequest()
 	if err != nil {
 		return err
+	}
+	if fault != "" {
+		// every other fault vector starts with a healthy exchange, so that the proxy's transport holds a
+		// kept-alive connection to the API when the fault strikes (a stale connection dying under a request:
+		// net/http then repeats replayable requests by itself); the others meet the fault on a fresh connection
+		if h.nfault++; h.nfault%2 == 1 {
+			h.env.up.arm(ans, "")
+			if _, err := h.env.exchange(method, raw); err != nil {
+				return err
+			}
+		}
+	}
+	h.env.up.arm(ans, fault)
+	switch fault {
+	case "refused":
+		h.env.tr.CloseIdleConnections() // no kept-alive connection to the API: the proxy has to dial
+		h.env.refuse.Store(true)
+		defer h.env.refuse.Store(false)
+	case "hang":
+		normal := h.env.router.proxyClient.Timeout
+		h.env.router.proxyClient.Timeout = c37HangTimeout
+		defer func() { h.env.router.proxyClient.Timeout = normal }()
 	}
 	res, err := h.env.exchange(method, raw)
 	if err != nil {
 		return err
 	}
 	h.res, h.calls = res, h.env.up.seen()
+	if fault != "" {
+		// leave nothing of the faulty exchange behind for the next vector
+		h.env.up.arm(c37Answer{}, "")
+		h.env.tr.CloseIdleConnections()
+	}
 	return nil
+}
+
+// seenAbs is one request the fake API received, in the shape of Proxy.tla Upstream(req).
+func (h *c37Harness) seenAbs(c c37Seen) map[string]any {
+	host, _, _ := net.SplitHostPort(h.res.local)
+	hdrs := map[string]any{}
+	for n, lines := range c.header {
+		if c37HopReq[n] {
+			continue
+		}
+		el := c37Elements(n, lines)
+		if n == "X-Forwarded-For" {
+			for i, x := range el {
+				if x == h.res.local || x == host {
+					el[i] = "CLIENT"
+				}
+			}
+		}
+		hdrs[n] = el
+	}
+	return map[string]any{"method": c.method, "target": c.target, "body": c37BodyToken(c.body), "hdrs": hdrs}
 }
 
 func (h *c37Harness) Apply(a map[string]any) error {
@@ -378,35 +499,34 @@ func (h *c37Harness) Apply(a map[string]any) error {
 		}
 		h.returned = true
 		return nil
+	case name == "Faulty" && h.side == "fault":
+		if err := h.exchange(); err != nil {
+			return err
+		}
+		h.forwarded, h.returned = true, true
+		if f := os.Getenv("C37_FAULT_LOG"); f != "" { // diagnostic only: what the real code did under each fault
+			if fh, err := os.OpenFile(f, os.O_APPEND|os.O_CREATE|os.O_WRONLY, 0o600); err == nil {
+				fmt.Fprintf(fh, "%s %s body=%s -> presentations=%d client=%d cut=%v\n", h.fault, verifkit.Str(h.req, "method"), verifkit.Str(h.req, "body"), len(h.calls), h.res.status, h.res.cut)
+				fh.Close()
+			}
+		}
+		return nil
 	}
 	return fmt.Errorf("unknown action %v on side %q", a, h.side)
 }
 
 func (h *c37Harness) Project() (any, error) {
 	up, down := []any{}, []any{}
-	if h.forwarded && len(h.calls) > 0 {
-		c := h.calls[0]
-		host, _, _ := net.SplitHostPort(h.res.local)
-		hdrs := map[string]any{}
-		for n, lines := range c.header {
-			if c37HopReq[n] {
-				continue
-			}
-			el := c37Elements(n, lines)
-			if n == "X-Forwarded-For" {
-				for i, x := range el {
-					if x == h.res.local || x == host {
-						el[i] = "CLIENT"
-					}
-				}
-			}
-			hdrs[n] = el
+	if h.forwarded && h.side == "fault" {
+		for _, c := range h.calls {
+			up = append(up, h.seenAbs(c))
 		}
-		up = append(up, map[string]any{"method": c.method, "target": c.target, "body": c37BodyToken(c.body), "hdrs": hdrs})
+	} else if h.forwarded && len(h.calls) > 0 {
+		up = append(up, h.seenAbs(h.calls[0]))
 	}
 	if h.returned {
 		r := h.res
-		if verifkit.Int(h.rsp, "status") == 0 && (r.status == 502 || r.status == 503 || r.status == 504) {
+		if (verifkit.Int(h.rsp, "status") == 0 || h.side == "fault") && (r.status == 502 || r.status == 503 || r.status == 504) {
 			down = append(down, map[string]any{"kind": "gateway-error", "status": 0, "body": "-", "hdrs": map[string]any{"Access-Control-Allow-Origin": []any{"*"}}, "calls": 0})
 		} else {
 			hdrs := map[string]any{}
@@ -416,10 +536,22 @@ func (h *c37Harness) Project() (any, error) {
 				}
 				hdrs[n] = c37Elements(n, lines)
 			}
-			down = append(down, map[string]any{"kind": "relayed", "status": r.status, "body": c37BodyToken(r.body), "hdrs": hdrs, "calls": len(h.calls)})
+			kind, body := "relayed", c37BodyToken(r.body)
+			if want := c37Bodies[verifkit.Str(h.rsp, "body")]; h.side == "fault" && r.cut {
+				// visibly incomplete (the connection ended before the announced length): what arrived must be the beginning of the API's body
+				got := bytes.TrimSuffix(r.body, []byte(" [c37: body cut short]"))
+				if len(got) < len(want) && bytes.HasPrefix(want, got) {
+					kind, body = "relayed-cut", "cut"
+				}
+			}
+			down = append(down, map[string]any{"kind": kind, "status": r.status, "body": body, "hdrs": hdrs, "calls": len(h.calls)})
 		}
 	}
-	return map[string]any{"side": h.side, "req": h.req, "rsp": h.rsp, "up": up, "down": down}, nil
+	fault := h.fault
+	if fault == "" {
+		fault = "none"
+	}
+	return map[string]any{"side": h.side, "fault": fault, "req": h.req, "rsp": h.rsp, "up": up, "down": down}, nil
 }
 
 func TestVerifC37Proxy(t *testing.T) {
